@@ -384,13 +384,15 @@ Section KeyPairRoundTrip.
 Variable H : bytes -> bytes.
 Variable sign_direct : N -> bytes -> res sigdata.
 Variable RecoverDirect : sigdata -> bytes -> Z -> res bytes.
-Variable addr_of : N -> bytes.
+Variable d : N.            (* the private key *)
+Variable chain : Z.
+Variable addr : bytes.     (* the address of the key *)
 
-Hypothesis SD_nonneg : forall d z v r s, sign_direct d z = Ok (v, r, s) -> (0 <= r)%Z /\ (0 <= s)%Z.
-Hypothesis RD_inverts : forall d z v r s chain, sign_direct d z = Ok (v, r, s) -> v_legacy v ->
-  RecoverDirect (v, r, s) z chain = Ok (addr_of d) /\ RecoverDirect ((v - 27)%Z, r, s) z chain = Ok (addr_of d).
+Hypothesis SD_nonneg : forall z v r s, sign_direct d z = Ok (v, r, s) -> (0 <= r)%Z /\ (0 <= s)%Z.
+Hypothesis RD_inverts : forall z v r s, sign_direct d z = Ok (v, r, s) -> v_legacy v ->
+  RecoverDirect (v, r, s) z chain = Ok addr /\ RecoverDirect ((v - 27)%Z, r, s) z chain = Ok addr.
 
-Theorem recover_sign_keypair m t d chain out :
+Theorem recover_sign_keypair m t out :
   to_ok t = true -> chain_ok chain ->
   sign_mode m t (Some (KeyPairSign H sign_direct d)) chain = Ok out ->
   (N.of_nat (length out) <= maxInt32)%N ->
@@ -398,15 +400,15 @@ Theorem recover_sign_keypair m t d chain out :
   exists v r s, sign_direct d (H pre) = Ok (v, r, s) /\
     (v_legacy v ->
      RecoverRawTransaction H RecoverDirect out chain
-     = Ok (addr_of d, recovered_tx (format_of m t) (norm t), pre)).
+     = Ok (addr, recovered_tx (format_of m t) (norm t), pre)).
 Proof.
   intros Ht Hc Hsign Hlen pre.
   pose proof Hsign as Hs2. rewrite sign_mode_unfold in Hs2. unfold KeyPairSign in Hs2 at 1.
   fold pre in Hs2. destruct (sign_direct d (H pre)) as [[[v r] s]|e|] eqn:E; try discriminate.
   exists v, r, s. split; [reflexivity|]. intros Hv.
-  destruct (SD_nonneg _ _ _ _ _ E) as [Hr Hs].
+  destruct (SD_nonneg _ _ _ _ E) as [Hr Hs].
   rewrite (recover_sign H RecoverDirect m t (KeyPairSign H sign_direct d) chain v r s out); try assumption.
-  fold pre. destruct (RD_inverts _ _ _ _ _ chain E Hv) as [R1 R2].
+  fold pre. destruct (RD_inverts _ _ _ _ E Hv) as [R1 R2].
   destruct (format_of m t); cbn [v_seen]; rewrite ?R1, ?R2; reflexivity.
 Qed.
 End KeyPairRoundTrip.
